@@ -1,7 +1,7 @@
 CONSTANTS
   Files = {1, 2, 3, 4}
   MaxFiles = 3
-  Cmds = {"scan", "fix", "stdin", "list_some", "list_none", "scan_missing", "fix_missing", "plugins_list", "plugins_info_hit", "plugins_info_miss", "plugins_none", "ext_list", "ext_info_hit", "ext_info_miss", "ext_none", "version", "none", "badarg"}
+  Cmds = {"scan", "fix", "stdin", "list_some", "list_none", "scan_missing", "fix_missing", "scan_good_missing", "fix_good_missing", "scan_good_noglob", "plugins_list", "plugins_info_hit", "plugins_info_miss", "plugins_none", "ext_list", "ext_info_hit", "ext_info_miss", "ext_none", "version", "none", "badarg"}
   SchemeSels = {"none", "arg_default", "arg_minimal", "cfg_default", "cfg_minimal", "cfg_bad", "arg_bad", "arg_minimal_cfg_default", "arg_default_cfg_minimal"}
   Cfgs = {"ok", "badfile", "strictbad"}
   Kinds = {"clean", "trig", "fixable", "perr", "perrl", "terr", "undec"}
